@@ -80,7 +80,7 @@ class SimThread:
 
 
 class Sched:
-    def __init__(self, choices=(), horizon=4000.0, max_steps=3_000_000, preempt=None, trace=False, repo="/repo"):
+    def __init__(self, choices=(), horizon=4000.0, max_steps=3_000_000, preempt=None, trace=False, repo="/repo", preempt_at=None):
         self.now = 0.0
         self.threads = []
         self.current = None
@@ -94,7 +94,12 @@ class Sched:
         self.steps = 0
         self.max_steps = max_steps
         self.preempt = {int(k): v for k, v in (preempt or {}).items()}
-        self.trace = trace or bool(self.preempt)
+        # preemption addressed by place rather than by global step: {"_app.py:close": {k: choice}} = at the k-th line
+        # executed inside that function (counted over all its invocations) the running thread is preempted
+        self.preempt_at = {f: {int(k): v for k, v in d.items()} for f, d in (preempt_at or {}).items()}
+        self._fcount = {}
+        self._fkey = {}
+        self.trace = trace or bool(self.preempt) or bool(self.preempt_at)
         self.horizon = horizon
         self.prefix = os.path.join(os.path.realpath(repo), "websocket") + os.sep
         self._fcache = {}
@@ -289,6 +294,16 @@ class Sched:
                 self._abort("steps", f"more than {self.max_steps} lines executed inside websocket/")
                 raise SimAbort()
             p = self.preempt.get(self.steps)
+            if self.preempt_at:
+                co = frame.f_code
+                key = self._fkey.get(co)
+                if key is None:
+                    key = self._fkey[co] = f"{os.path.basename(co.co_filename)}:{co.co_name}"
+                d = self.preempt_at.get(key)
+                if d is not None:
+                    n = self._fcount[key] = self._fcount.get(key, 0) + 1
+                    if p is None:
+                        p = d.get(n)
             if p is not None and not self.aborting:
                 self.preempted_in.append(f"{os.path.basename(frame.f_code.co_filename)}:{frame.f_code.co_name}:{frame.f_lineno}")
                 self.yield_point("preempt", forced=p)
